@@ -645,7 +645,7 @@ theorem c09_inflight_admission {K : Kind} {cfg : Cfg} {st : State} {m : Mon} (hi
     simp only [step, Except.ok.injEq] at h1; exact h1.symm
   subst hst
   have hany : m.held.any (·.1 == id) = false := by rw [hi.fl.held, heldOf_any]; exact hnew
-  simp only [judgeTrans, judgeAcquire, observe_admitted, hadm, hany, hi.prev, observe_choice, hld, hmi,
+  simp only [exactTrans, judgeAcquire, observe_admitted, hadm, hany, hi.prev, observe_choice, hld, hmi,
     Bool.not_false, true_and] at h3
   rw [hi.fl.held, hc, heldOf_countP] at h3
   by_cases hle : (st.handles.countP (flagOf c) : Int) + 1 ≤ m.ob.mi
@@ -799,9 +799,16 @@ def tamper (k : Nat) (l : Lim) (obs : List Obs) : List Obs :=
 
 /-- the judge is not trivially true: it rejects what the pristine code did — the granted 5000 applied unclamped,
     `uint32(-300)`, an unbounded error fallback (300 in flight), a stale reply applied, and a wrong-typed limiter -/
-example : (judgeAll exCfg exOps (tamper 4 (.mi 5000) (run exCfg exOps).1))[4]? = some ["c09.cap-exceeds-global", "c09.recover-not-applied"] := by decide
+example : (judgeAll exCfg exOps (tamper 4 (.mi 5000) (run exCfg exOps).1))[4]? = some ["c09.cap-exceeds-global"] := by decide
+/-- … a granted 5000 (global 100) that leaves the instance at 50: the quota did not take effect -/
+example : (judgeAll exCfg exOps (tamper 4 (.mi 50) (run exCfg exOps).1))[4]? = some ["c09.recover-not-applied"] := by decide
 example : allGood (judgeAll exCfg exOps (tamper 5 (.mi 4294966996) (run exCfg exOps).1)) = false := by decide
-example : (judgeAll exCfg exOps (tamper 7 (.mi 300) (run exCfg exOps).1))[7]? = some ["c09.cap-exceeds-global", "c09.error-fallback"] := by decide
+example : (judgeAll exCfg exOps (tamper 7 (.mi 300) (run exCfg exOps).1))[7]? = some ["c09.cap-exceeds-global"] := by decide
+/-- the error fallback is judged from the property's text — finite, of the schema's type, within the global limit — not
+    by the code's formula: exactly the local limit 10 (instead of `min(max(300 observed, 10), 100) = 100`) is accepted,
+    no limit at all is not -/
+example : (judgeAll exCfg exOps (tamper 7 (.mi 10) (run exCfg exOps).1))[7]? = some [] := by decide
+example : (judgeAll exCfg exOps (tamper 7 (.exempt 0) (run exCfg exOps).1))[7]? = some ["c09.answer-type-mismatch", "c09.error-fallback"] := by decide
 example : (judgeAll exCfg exOps (tamper 8 (.mi 7) (run exCfg exOps).1))[8]? = some ["c09.stale-reply-applied"] := by decide
 example : (judgeAll exCfg exOps (tamper 3 (.tb 1000000 1000000) (run exCfg exOps).1))[3]? = some ["c09.answer-type-mismatch"] := by decide
 example : (judgeAll exCfg exOps (tamper 3 (.exempt 0) (run exCfg exOps).1))[3]? = some ["c09.answer-type-mismatch"] := by decide
@@ -849,15 +856,15 @@ example : (judgeAll exCfg exOpsSync ((run exCfg exOpsSync).1.mapIdx fun i o =>
 
 /-- the request side, token bucket 10/20 of global 100/200 under the count strategy: the server fills the reserve (5),
     the instance is idle, the reset check times out (degraded: 10/10), the server is back: the round 1 s later sends
-    nothing (not due), the round 3 s after the last answer sends the zero-token resync and recovery follows -/
+    nothing (not due), the round 12 s after the last answer sends the zero-token resync and recovery follows -/
 def exTBCount : Schema := { strategy := .count, tb := some ⟨10, 20⟩, gtb := some ⟨100, 200⟩ }
 def exOpsTick : List Op :=
   [ .schema exTBCount, .sync false 1 (some 1) 0, .reconcileCount,
     .tick 3000000000 (some { accept := true, limit := 1000 }),
     .setLimit { err := .other },
     .tick 4000000000 (some { accept := true, limit := 1000 }),
-    .tick 6000000000 (some { accept := true, limit := 1000 }),
-    .tick 6900000000 (some { accept := true, limit := 1000 }) ]
+    .tick 15000000000 (some { accept := true, limit := 1000 }),
+    .tick 15900000000 (some { accept := true, limit := 1000 }) ]
 
 example : (run exCfg exOpsTick).1.map (fun o => (o.lim, o.unavail, o.tokens, o.req)) =
     [ (some (.tb 10 20), false, 0, none), (some (.tb 10 20), false, 0, none), (some (.tb 100 200), false, 0, none),
@@ -940,7 +947,7 @@ example : allGood (judgeAll exCfg exOpsKind (run exCfg exOpsKind).1) = true := (
 /-- the judge rejects an implementation that keeps handing out the limiter of the old type after the change -/
 example : (judgeAll exCfg exOpsKind ((run exCfg exOpsKind).1.mapIdx fun i o =>
       if i = 3 then { o with choice := .remote, lim := some (.mi 4), rlim := some (.mi 4) } else o))[3]?
-    = some ["c09.fallback-choice", "c09.answer-type-mismatch"] := by decide
+    = some ["c09.answer-type-mismatch"] := by decide
 
 /-- the strategy of the item changes — answered by the server (""), then the schema's own (allocate → count) — with four
     requests in flight under the global limit 4: the limiter is kept, the four stay counted, nothing more is admitted
